@@ -166,6 +166,18 @@ def generate(rng, tier):
     # --- text the tokenizer must reject or treat specially
     for s in ['', '1x', '5', 'b', '-b', '1d2', '1d 2d', '--1d', '1.5d', 'd1', '1dd', '3b-', '+-1d', '1e', '2 b']:
         yield dict(tag='malformed', lines=[line('bump', D(2020, 2, 28), s)])
+    # --- leftover text after the last token.  (a) junk that no time-zone name can be (pytz names are letters, digits, / _ - +): the
+    #     parts are applied, then ValueError (theorem tenor_then_leftover) - unless a part raised first.  (b) zone names: OUTSIDE the
+    #     property and the model (the code converts to that zone; which names exist depends on pytz and on today's date): sampled for
+    #     the record, the model's ValueError is not compared with a tz-aware reply.
+    for _ in range(60 if quick else 600):
+        t = rand_day(rng) + (rand_tod(rng) if rng.random() < 0.5 else TD(0))
+        s = ''.join(tok(rand_n(rng), rng.choice(FIXED + 'b'), rng) for _ in range(rng.choice([1, 2])))
+        junk = rng.choice(['#', '!', '?', ',', ' ', '1d,', '#utc', ' utc', ' est', '(', '1', '2 d', '@london', '1d!', '.']) + rng.choice(['', '', 'x', '1d'])
+        yield dict(tag='leftover-junk', lines=[line('bump', t, s + junk)])
+    for z in ['utc', 'UTC', 'est', 'EST', 'london', 'London', 'gmt', 'Europe/London', 'new york', 'DE', 'cet', 'tokyo', 'xyz', 'q', 'zz']:
+        t = rand_day(rng) + rand_tod(rng)
+        yield dict(tag='tz-suffix', lines=[line('bump', t, tok(rand_n(rng), rng.choice('dbh'), rng) + z)])
     # --- range ends
     for t, s in [(D(9999, 12, 1), '1m'), (D(9999, 12, 31), '1d'), (D(1, 1, 1), '-1d'), (D(1, 1, 5), '-1m'), (D(1, 3, 1), '-1y'),
                  (D(9999, 1, 1), '1y'), (D(9000, 1, 1), '60y'), (D(1, 1, 2), '-3b'), (D(1, 1, 3), '-1b'), (D(9999, 12, 31, 23), '1h')]:
@@ -240,12 +252,14 @@ def run_line(state, sx):
 
 def in_claim(case):
     tag = case.get('tag', '').replace('corpus:', '')
-    return not (tag in ('malformed', 'range-end', 'range-end-b', 'monthly-intraday'))
+    return not (tag in ('malformed', 'range-end', 'range-end-b', 'monthly-intraday', 'leftover-junk', 'tz-suffix'))
 
 
 def compare(case, i, line, ir, mr):
     if proto.same_reply(ir, mr):
         return None
+    if case.get('tag', '').replace('corpus:', '') == 'tz-suffix' and mr == 'err ValueError' and ir.startswith('ok S:'):
+        return None       # the leftover is a zone name the code knows today: a tz-aware result, outside the model (see PygModel/Bump.lean)
     msg = 'implementation %s, model %s' % (ir, mr)
     if not in_claim(case):
         return ('divergence', msg)
